@@ -792,9 +792,9 @@ func gamma_incomplete_imp(a, x float64, normalised, invert bool) float64 {
     // x is so small that P is necessarily very small too,
     // use http://functions.wolfram.com/GammaBetaErf/GammaRegularized/06/01/05/01/01/
     if normalised {
-      result = math.Pow(x, a)/a
-    } else {
       result = math.Pow(x, a) / math.Gamma(a + 1.0)
+    } else {
+      result = math.Pow(x, a)/a
     }
     result *= 1.0 - a*x/(a + 1.0)
   }
